@@ -233,7 +233,12 @@ func runC19(t *testing.T, seed int64, n int, out *Out) {
 				_ = os.WriteFile(bf, bz, 0o644)
 				_ = os.Remove(of)
 				cmd := exec.Command(os.Args[0], "-test.run", "^TestRun$")
-				cmd.Env = append(os.Environ(), "VERIF_MODE=c19child", "VERIF_OUT="+of, "VERIF_C19_DIR="+dir4, "VERIF_C19_HOME="+home4, "VERIF_C19_BLOCK="+bf)
+				// the node's environment is not part of the chain's state: the fresh process runs in another time zone than the other
+				// replicas (Tokyo on even blocks, New York on odd ones; the histories start at 22:13 UTC, when both differ from UTC in
+				// their calendar date or hour)
+				tz := []string{"Asia/Tokyo", "America/New_York"}[b%2]
+				cmd.Env = append(os.Environ(), "TZ="+tz, "VERIF_MODE=c19child", "VERIF_OUT="+of, "VERIF_C19_DIR="+dir4, "VERIF_C19_HOME="+home4, "VERIF_C19_BLOCK="+bf)
+				stats["child-tz/"+tz]++
 				cout, cerr := cmd.CombinedOutput()
 				var cl struct {
 					Hash  string   `json:"hash"`
